@@ -166,6 +166,11 @@ def frame_of(u):
                         index=pd.DatetimeIndex(u["dates"]), columns=u["cols"], dtype=float)
 
 
+class FixtureIllFormed(Exception):
+    """the prior portfolio built for a case is itself an ill-formed state (its value passed exactly through zero: the engine rightly
+    refuses to compute a return on a zero base) - the case is skipped, the algo under test was never called"""
+
+
 def make_strategy(bt, u, now_i, holdings=None, capital=1e6, extra=None):
     """a real strategy set up on the universe, updated to dates[now_i]; `holdings` = (date index, [(name, weight)])"""
     data = frame_of(u)
@@ -179,7 +184,10 @@ def make_strategy(bt, u, now_i, holdings=None, capital=1e6, extra=None):
         for name, w in holdings[1]:
             s.rebalance(w, name, update=True)
     for i in range(first + 1, now_i + 1):
-        s.update(data.index[i])
+        try:
+            s.update(data.index[i])
+        except ZeroDivisionError as e:
+            raise FixtureIllFormed(str(e)[:120])
     s.temp = {}
     return s, data
 
